@@ -151,6 +151,17 @@ CLAIMED = {
             "topic and correlation data; lookups are independent fresh iterations (position independent); owned copies use "
             "only fallible conversions mapped to BufferTooSmall. Byte-level encoding is C09.",
             "DESIGN.md §4 C20"),
+    "C08": ("panic-site enumeration over the inbound call graph (MIR Assert terminators + panicking callees) with "
+            "guard-dominance re-verification; decode-table extraction vs MQTT 5; shape analysis of the varint reader; "
+            "variant-set flow for the unreachable!() sites",
+            "Static analysis, structural clauses only: every panic-capable site reachable from the inbound entry points is an "
+            "obligation discharged by a constant condition, a type-level fact, or a named dominating guard that is re-checked "
+            "on the current tree (a new site or a lost guard is a violation); type dispatch, flag nibble per type, QoS 3, the "
+            "trailing-payload whitelist and the varint bounds/overlong test against MQTT 5; the unreachable!() sites are dead "
+            "by variant flow; decode/protocol errors latch (C11 inbound clauses). 'No panic for any byte string' is thereby a "
+            "finite obligation list instead of a sampled input space. Exact field values are decided only through the C09 "
+            "type/layout tables.",
+            "DESIGN.md §4 C08"),
 }
 
 NOT_APPLICABLE = {
